@@ -35,7 +35,8 @@ for p in props:
                 "the specification side of the theorems is the oracle applied to the implementation's outputs." % len(names)),
             "design_ref": "DESIGN.md section 5, %s" % pid,
         },
-        "level_note": getattr(m, "LEVEL_NOTE", "") or ("Trusted: Lean kernel + standard axioms; the correspondence harness; " + "; ".join(getattr(m, "TRUSTED", [])) + ". Assumed: " + "; ".join(getattr(m, "ASSUMPTIONS", []))),
+        "level_note": (getattr(m, "LEVEL_NOTE", "") or ("Trusted: Lean kernel + standard axioms; the correspondence harness; " + "; ".join(getattr(m, "TRUSTED", [])) + ". Assumed: " + "; ".join(getattr(m, "ASSUMPTIONS", []))))
+                      + ((" Caveats from the independent review (what the theorems do NOT establish; decided by the tie only): " + " | ".join(m.CLAUSE_CAVEATS)) if getattr(m, "CLAUSE_CAVEATS", None) else ""),
         "technique": getattr(m, "TECHNIQUE", "Lean 4 machine-checked proof over a hand-written executable model + model/implementation correspondence check"),
     })
 
